@@ -20,7 +20,7 @@ REQUIRED = ['fam:exclfb', 'negative_base', 'lookback_lt_all', 'exclusion_used', 
             'base_near_coding_boundary', 'fam:boundary']
 SIZES = {'quick': dict(generic=380, eng=160), 'thorough': dict(generic=9000, eng=3000)}
 BOUNDARY_H = [100.0, 1999.97, 2000.0, 9999.98, 9999.999999, 10000.0, 10000.01, 10999.99, 11000.0, 12999.97,
-              13000.0, 99999.0, 0.0, -0.0, 54.3, -0.5, -56.3, -100.0, -250.0]
+              13000.0, 99999.0, 0.0, -0.0, 54.3, -0.5, -56.3, -100.0, -250.0, -5e-324]
 
 
 def plan(tier, seed):
